@@ -291,6 +291,9 @@ func Remove(name string) error {
 			}
 		}
 	}
+	if p := f.Nodes[parent(name)]; p != nil && p.Mode&0o200 == 0 {
+		return pathErr("remove", name, syscall.EACCES)
+	}
 	if live {
 		delete(f.Nodes, name)
 		f.mutated("remove", name)
@@ -311,6 +314,15 @@ func RemoveAll(name string) error {
 	for k := range f.Nodes {
 		if k == name || strings.HasPrefix(k, name+"/") {
 			victims = append(victims, k)
+		}
+	}
+	// entries of a directory without write permission cannot be unlinked
+	for _, k := range victims {
+		if k == name {
+			continue
+		}
+		if p := f.Nodes[parent(k)]; p != nil && p.Mode&0o200 == 0 {
+			return pathErr("unlinkat", k, syscall.EACCES)
 		}
 	}
 	for _, k := range victims {
